@@ -199,6 +199,17 @@ def main(argv=None):
                                "bad": {"name": nm, "model": v, "info": {"bounded": True}, "native": v}, "task": r["name"]}
             if b.get("error"):
                 broken.append(f"{r['name']}: bounded stand-in failed to run: {b['error'][-800:]}")
+    axioms = None
+    if tier == "thorough" and os.environ.get("VERIF_NO_SELFTEST") != "1":
+        # axiom conformance: the trusted facts about JAX / TFP are executed against the real libraries (tested, never proved)
+        try:
+            p = subprocess.run([VENV_PY, os.path.join(ROOT, "replay", "axioms.py")], capture_output=True, text=True, timeout=1800,
+                               cwd="/var/tmp", env=dict(os.environ, PYTHONPATH=os.path.join(os.environ.get("VERIF_REPO", "/repo"), "src")))
+            axioms = json.loads(p.stdout.strip().splitlines()[-1])
+            for f in axioms.get("failed", []):
+                broken.append(f"axiom conformance: {f['axiom']} does not hold for the installed libraries: {f}")
+        except Exception as e:  # noqa
+            broken.append(f"axiom conformance could not run: {e}")
     selftest = []
     if tier == "thorough" and not violations and not broken and os.environ.get("VERIF_NO_SELFTEST") != "1":
         selftest = seed_selftest(prop)
@@ -234,7 +245,7 @@ def main(argv=None):
         out_lines.append(f"NOTE: known finding {n} no longer reproduces")
     wall = time.time() - t0
     write_evidence(evid_path, prop, tier, seed, results, agg, known_hit, violations, und_obs, undecided, broken, bounded, wall,
-                   selftest)
+                   selftest, axioms)
     n_proved = sum(1 for v in agg.values() if v["status"] == "proved")
     print(f"{prop}: {n_proved}/{len(agg)} obligations proved, {len(known_hit)} known findings, {len(violations)} violations, "
           f"{len(und_obs) + len(set(undecided))} undecided, {len(bounded)} bounded stand-ins, {wall:.1f}s, exit {rc}")
@@ -320,7 +331,7 @@ def do_replay(path):
 
 
 def write_evidence(path, prop, tier, seed, results, agg, known_hit, violations, und_obs, undecided, broken, bounded, wall,
-                   selftest=()):
+                   selftest=(), axioms=None):
     cross = {}
     for r in results:
         if r["kind"] != "proof":
@@ -387,6 +398,7 @@ def write_evidence(path, prop, tier, seed, results, agg, known_hit, violations, 
         "bounded_standins": bounded,
         "cross_solver_answers": cross,           # thorough tier: answers of cvc5 / z3 4.8 on the VCs z3 5.1 proved
         "seeded_change_selftest": list(selftest),   # thorough tier: kept seeded changes re-run on a scratch copy
+        "axiom_conformance": axioms,                # thorough tier: trusted JAX/TFP facts executed against the libraries
         "samples": samples or [b.get("samples", [None])[0] for b in bounded][:3],
         "evaluations": max(1, sum(o["path_instances"] for o in obligations) + b_evals),
         "distinct_nontrivial": max(2, len(obligations) + sum(b.get("distinct_nontrivial", 0) for b in bounded)),
